@@ -7,6 +7,7 @@ import (
 
 	proto "github.com/kubewharf/kubebrain-client/api/v2rpc"
 
+	"github.com/kubewharf/kubebrain/pkg/backend/tso"
 	"github.com/kubewharf/kubebrain/pkg/zzverif"
 )
 
@@ -90,5 +91,95 @@ func VerifC06ListWatch() {
 	}
 	// and the later range read is what the reference model says
 	w.checkList(rg[0], rg[1], 0, 0)
+	zzverif.Cover("done")
+}
+
+// vGateAllTSO makes dealing and committing revisions labelled scheduling points.
+type vGateAllTSO struct{ tso.TSO }
+
+func (t *vGateAllTSO) Deal() (uint64, error) {
+	zzverif.YieldAt("tso.deal")
+	defer zzverif.YieldAt("tso.deal-done")
+	return t.TSO.Deal()
+}
+
+func (t *vGateAllTSO) Commit(rev uint64) {
+	zzverif.YieldAt("tso.commit")
+	t.TSO.Commit(rev)
+	zzverif.YieldAt("tso.commit-done")
+}
+
+// VerifC06Race: the range read races a writer and the sequencer (every interleaving of their
+// store operations, revision dealing and committing within the delay bound); then a watch from
+// the read's revision + 1 and one more write. Applying the delivered events to the range result
+// must still give the later range result.
+func VerifC06Race() {
+	w := vNewWorldTSO(2, func(t tso.TSO) tso.TSO { return &vGateAllTSO{t} })
+	w.vWriteSeq(1)
+	zzverif.WaitIdle()
+	rg := vRanges[0]
+	var l *proto.RangeResponse
+	var lerr error
+	done := make(chan struct{}, 2)
+	w.s.Yield = zzverif.YieldAt
+	zzverif.ExploreSchedules(zzverif.Param("preempt", 2))
+	zzverif.Foreground("collectStorageWriteEvents")
+	zzverif.Go("reader", func() {
+		l, lerr = w.b.List(vCtx(), &proto.RangeRequest{Key: rg[0], End: rg[1]})
+		done <- struct{}{}
+	})
+	zzverif.Go("writer", func() {
+		val := zzverif.Bytes("racing", 1)
+		resp, err := w.b.Create(vCtx(), &proto.CreateRequest{Key: vNames[1], Value: val})
+		zzverif.Assert(err == nil && resp.Succeeded, "racing create succeeds")
+		w.g.Append(vNames[1], resp.Header.Revision, val, false)
+		done <- struct{}{}
+	})
+	<-done
+	<-done
+	zzverif.StopExploring()
+	w.s.Yield = nil
+	w.dealt++
+	zzverif.WaitIdle()
+	zzverif.Assert(lerr == nil, "list: no error")
+	r := l.Header.Revision
+	snap := make([]vSnapEntry, len(vNames))
+	for _, kv := range l.Kvs {
+		zzverif.Assert(kv.Revision <= r, "range result holds nothing newer than its header revision")
+		snap[vNameIndex(kv.Key)] = vSnapEntry{true, kv.Value, kv.Revision}
+	}
+	if len(l.Kvs) == 2 {
+		zzverif.Cover("read-saw-racing-write")
+	} else {
+		zzverif.Cover("read-missed-racing-write")
+	}
+	ch, err := w.b.Watch(vCtx(), "/r/", r+1)
+	zzverif.Assert(err == nil, "watch from the list revision + 1 is accepted")
+	w.vWriteSeq(1)
+	zzverif.WaitIdle()
+	evs, closed := vDrainEvents(ch)
+	zzverif.Assert(!closed, "watch stays open")
+	for _, e := range evs {
+		i := vNameIndex(e.Kv.Key)
+		if e.Type == proto.Event_DELETE {
+			snap[i] = vSnapEntry{}
+		} else {
+			snap[i] = vSnapEntry{true, e.Kv.Value, e.Revision}
+		}
+	}
+	l2, err := w.b.List(vCtx(), &proto.RangeRequest{Key: rg[0], End: rg[1]})
+	zzverif.Assert(err == nil, "second list: no error")
+	cnt := 0
+	for _, s := range snap {
+		if s.present {
+			cnt++
+		}
+	}
+	zzverif.Assert(cnt == len(l2.Kvs), "reconstruction has the same keys as the later range read")
+	for _, kv := range l2.Kvs {
+		s := snap[vNameIndex(kv.Key)]
+		zzverif.Assert(s.present, "every key of the later range read is in the reconstruction")
+		zzverif.Assert(zzverif.BytesEq(s.val, kv.Value) && s.rev == kv.Revision, "reconstructed value and revision")
+	}
 	zzverif.Cover("done")
 }
